@@ -57,13 +57,64 @@ def units(tier):
     es = ['E:' + e for e in sorted(lib.MODEL['elements'])]
     # every target twice, each in its own fresh process: as the first type used ("cold") and after every other
     # simple type has been used ("warm"): validation must not depend on what the process did before
-    return [u + '@cold' for u in ts + es] + [u + '@warm' for u in ts + es]
+    # attribute positions: per distinct attribute type one (element, attribute) pair, assigned by constructor and by overwriting
+    # a valid value (the text an attribute emits is produced by the element, not by the type)
+    ats = ['A:%s/%s' % (e, a) for (e, a) in attribute_representatives()]
+    return [u + '@cold' for u in ts + es + ats] + [u + '@warm' for u in ts + es]
+
+
+def attribute_representatives():
+    import json
+    seen = {}
+    for e in sorted(lib.MODEL['elements']):
+        tn, c, st = lib.type_of(e)
+        if e in ('link', 'opus', 'part-link', 'image', 'credit-image') or not c:
+            continue
+        for a in c['attrs']:
+            if ':' in a['name'] or a['name'] == 'name' or a.get('fixed'):
+                continue
+            k = json.dumps(refmodel.attr_type(lib.MODEL, a), sort_keys=True)
+            seen.setdefault(k, (e, a['name']))
+    return sorted(seen.values())
+
+
+class AttrObj:
+    """wraps an element so that the harness reads the emitted text of one attribute"""
+    def __init__(self, e, attr):
+        self.e, self.attr = e, attr
+        self.xsd_check = False
+
+    def to_string(self):
+        saved = self.e.xsd_check
+        self.e.xsd_check = False
+        try:
+            return self.e.to_string()
+        finally:
+            self.e.xsd_check = saved
 
 
 def target(unit):
     """-> (concrete constructor, Lex, note)"""
     unit = unit.split('@')[0]
     kind, name = unit.split(':', 1)
+    if kind == 'A':
+        el, attr = name.split('/', 1)
+        cls = lib.cls_of(el)
+        tn, c, st = lib.type_of(el)
+        a = [x for x in c['attrs'] if x['name'] == attr][0]
+        T = refmodel.attr_type(lib.MODEL, a)
+        py = attr.replace('-', '_')
+        kw = {k.replace('-', '_'): v for k, v in lib.required_attrs(el).items() if ':' not in k}
+        v0 = lib.valid_value(el)
+        first = lib.sample_for(T)
+
+        def ctor(v):
+            # overwrite route: a valid value first, then the offered one (constructor route is covered by C04's table)
+            e = cls(v0, **dict(kw, **{py: first})) if v0 is not None else cls(**dict(kw, **{py: first}))
+            setattr(e, py, v)
+            return AttrObj(e, attr)
+        return ctor, lex.Lex(T), 'attribute overwrite'
+
     if kind == 'T':
         import musicxml.xsd.xsdsimpletype as ST
         cls = getattr(ST, simple_class_name(name))
@@ -108,7 +159,15 @@ def concrete(ctor, v):
         except Exception as e:
             return None, type(e).__name__
     text = None
-    if hasattr(obj, 'to_string'):
+    if isinstance(obj, AttrObj):
+        try:
+            import xml.etree.ElementTree as ET
+            text = ET.fromstring(obj.to_string()).attrib.get(obj.attr)
+            if text is None:
+                return None, 'attribute not emitted'
+        except Exception as e:
+            return None, 'to_string:' + type(e).__name__
+    elif hasattr(obj, 'to_string'):
         try:
             import xml.etree.ElementTree as ET
             saved = obj.xsd_check
